@@ -327,4 +327,132 @@ THEOREM MinPrincipleIdeal ==
   <2>2. u[j] \in Int /\ u[i] \in Int /\ b[i] \in Int /\ u[j] >= u[i] BY <1>1
   <2>3. QED BY <2>2, <1>2, <1>3
 
+
+(* ---- monotone profiles stay monotone (C01 MonoX), for every N ----------------------------------------------- *)
+(* The differences w[j] = u[j+1] - u[j] satisfy a stencil of the same kind (subtract row j from row j+1):          *)
+(*   D w[j] + k[j+1] (w[j] - w[j+1]) + k[j] (w[j] - w[j-1]) = D (b[j+1] - b[j]),                                    *)
+(* with k[1] = 0 on the Dirichlet side and ghost difference 0 beyond the no-flow node, so the smallest difference   *)
+(* is at least the smallest difference of the right-hand side.                                                      *)
+LEMMA DiffInterior ==
+  ASSUME NEW D \in Int, D > 0, NEW cL \in Int, cL >= 0, NEW kR \in Int, kR >= 0,
+         NEW um \in Int, NEW u0 \in Int, NEW u1 \in Int, NEW u2 \in Int, NEW b0 \in Int, NEW b1 \in Int,
+         D*u0 + cL*(u0 - um) + cL*(u0 - u1) = D*b0,
+         D*u1 + kR*(u1 - u0) + kR*(u1 - u2) = D*b1,
+         u1 - u0 <= u2 - u1, u1 - u0 <= u0 - um, b0 <= b1
+  PROVE u1 - u0 >= 0
+<1> DEFINE w == u1 - u0  wr == u2 - u1  wl == u0 - um  db == b1 - b0
+<1>1. w \in Int /\ wr \in Int /\ wl \in Int /\ db \in Int /\ w <= wr /\ w <= wl /\ db >= 0 OBVIOUS
+<1>2. D*w + kR*(w - wr) + cL*(w - wl) = D*db
+  <2>1. D*w = D*u1 - D*u0 BY Distrib
+  <2>2. kR*(w - wr) = kR*(u1 - u0) + kR*(u1 - u2)
+    <3>1. w - wr = (u1 - u0) + (u1 - u2) OBVIOUS
+    <3>2. kR*((u1 - u0) + (u1 - u2)) = kR*(u1 - u0) + kR*(u1 - u2) OBVIOUS
+    <3>3. QED BY <3>1, <3>2
+  <2>3. cL*(w - wl) = 0 - cL*(u0 - u1) - cL*(u0 - um)
+    <3>1. w - wl = 0 - (u0 - u1) - (u0 - um) OBVIOUS
+    <3>2. cL*(0 - (u0 - u1) - (u0 - um)) = 0 - cL*(u0 - u1) - cL*(u0 - um) OBVIOUS
+    <3>3. QED BY <3>1, <3>2
+  <2>4. D*db = D*b1 - D*b0 BY Distrib
+  <2>5. QED BY <2>1, <2>2, <2>3, <2>4
+<1> HIDE DEF w, wr, wl, db
+<1>3. w >= db BY ONLY <1>1, <1>2, D \in Int, D > 0, kR \in Int, kR >= 0, cL \in Int, cL >= 0, RowLower
+<1>4. QED BY <1>1, <1>3 DEF w
+
+LEMMA DiffLast ==
+  ASSUME NEW D \in Int, D > 0, NEW cL \in Int, cL >= 0, NEW kR \in Int, kR >= 0,
+         NEW um \in Int, NEW u0 \in Int, NEW u1 \in Int, NEW b0 \in Int, NEW b1 \in Int,
+         D*u0 + cL*(u0 - um) + cL*(u0 - u1) = D*b0,
+         D*u1 + kR*(u1 - u0) + 0*(u1 - u1) = D*b1,
+         u1 - u0 <= u0 - um, b0 <= b1
+  PROVE u1 - u0 >= 0
+<1> DEFINE w == u1 - u0  wl == u0 - um  db == b1 - b0
+<1>0. SUFFICES ASSUME w < 0 PROVE FALSE BY DEF w
+<1>1. w \in Int /\ wl \in Int /\ db \in Int /\ 0 \in Int /\ w <= 0 /\ w <= wl /\ db >= 0 BY <1>0
+<1>2. D*w + kR*(w - 0) + cL*(w - wl) = D*db
+  <2>1. D*w = D*u1 - D*u0 BY Distrib
+  <2>2. kR*(w - 0) = kR*(u1 - u0) OBVIOUS
+  <2>3. cL*(w - wl) = 0 - cL*(u0 - u1) - cL*(u0 - um)
+    <3>1. w - wl = 0 - (u0 - u1) - (u0 - um) OBVIOUS
+    <3>2. cL*(0 - (u0 - u1) - (u0 - um)) = 0 - cL*(u0 - u1) - cL*(u0 - um) OBVIOUS
+    <3>3. QED BY <3>1, <3>2
+  <2>4. D*db = D*b1 - D*b0 BY Distrib
+  <2>5. 0*(u1 - u1) = 0 OBVIOUS
+  <2>6. QED BY <2>1, <2>2, <2>3, <2>4, <2>5
+<1> HIDE DEF w, wl, db
+<1>3. w >= db BY ONLY <1>1, <1>2, D \in Int, D > 0, kR \in Int, kR >= 0, cL \in Int, cL >= 0, RowLower
+<1>4. QED BY ONLY <1>0, <1>1, <1>3
+
+
+THEOREM MonoX ==
+  ASSUME NEW N \in Nat, N >= 2, NEW D \in Int, D > 0,
+         NEW k \in [1..N -> Int], \A j \in 1..N : k[j] >= 0,
+         NEW b \in [1..N -> Int], NEW u \in [1..N -> Int],
+         Stencil(N, D, k, b, u),
+         \A j \in 1..(N - 1) : b[j] <= b[j + 1]
+  PROVE \A j \in 1..(N - 1) : u[j] <= u[j + 1]
+<1> DEFINE M == N - 1
+<1> DEFINE w == [j \in 1..M |-> u[j + 1] - u[j]]
+<1>1. M \in Nat /\ M >= 1 /\ w \in [1..M -> Int] OBVIOUS
+<1>2. PICK i \in 1..M : \A j \in 1..M : w[j] >= w[i]
+  <2> HIDE DEF w, M
+  <2> QED BY <1>1, ArgMin
+<1>3. i \in 1..(N - 1) /\ i + 1 \in 1..N /\ u[i] \in Int /\ u[i + 1] \in Int /\ b[i] \in Int /\ b[i + 1] \in Int
+      /\ b[i] <= b[i + 1] /\ k[i + 1] \in Int /\ k[i + 1] >= 0 /\ w[i] = u[i + 1] - u[i]
+  OBVIOUS
+<1>4. u[i + 1] - u[i] >= 0
+  <2>1. CASE i = 1 /\ i + 1 = N
+    <3> DEFINE u0 == u[1]  u1 == u[2]  um == u[1] - (u[2] - u[1])  b0 == b[1]  b1 == b[2]  kR == k[2]
+    <3>1. /\ um \in Int /\ u0 \in Int /\ u1 \in Int /\ b0 \in Int /\ b1 \in Int /\ kR \in Int /\ kR >= 0 /\ 0 \in Int /\ 0 >= 0
+          /\ D*u0 + 0*(u0 - um) + 0*(u0 - u1) = D*b0
+          /\ D*u1 + kR*(u1 - u0) + 0*(u1 - u1) = D*b1
+          /\ u1 - u0 <= u0 - um /\ b0 <= b1
+      BY <2>1, <1>3 DEF Stencil
+    <3> HIDE DEF u0, u1, um, b0, b1, kR
+    <3>2. u1 - u0 >= 0 BY ONLY <3>1, D \in Int, D > 0, DiffLast
+    <3>3. QED BY <3>2, <2>1 DEF u0, u1
+  <2>2. CASE i = 1 /\ i + 1 < N
+    <3> DEFINE u0 == u[1]  u1 == u[2]  u2 == u[3]  um == u[1] - (u[2] - u[1])  b0 == b[1]  b1 == b[2]  kR == k[2]
+    <3>0. 2 \in 2..(N - 1) /\ 2 \in 1..M /\ w[2] = u[3] - u[2] /\ w[1] = u[2] - u[1] /\ w[2] >= w[1] BY <2>2, <1>2
+    <3>1. /\ um \in Int /\ u0 \in Int /\ u1 \in Int /\ u2 \in Int /\ b0 \in Int /\ b1 \in Int /\ kR \in Int /\ kR >= 0 /\ 0 \in Int /\ 0 >= 0
+          /\ D*u0 + 0*(u0 - um) + 0*(u0 - u1) = D*b0
+          /\ D*u1 + kR*(u1 - u0) + kR*(u1 - u2) = D*b1
+          /\ u1 - u0 <= u2 - u1 /\ u1 - u0 <= u0 - um /\ b0 <= b1
+      BY <2>2, <1>3, <3>0 DEF Stencil
+    <3> HIDE DEF u0, u1, u2, um, b0, b1, kR
+    <3>2. u1 - u0 >= 0 BY ONLY <3>1, D \in Int, D > 0, DiffInterior
+    <3>3. QED BY <3>2, <2>2 DEF u0, u1
+  <2>3. CASE i >= 2 /\ i + 1 = N
+    <3> DEFINE u0 == u[i]  u1 == u[i + 1]  um == u[i - 1]  b0 == b[i]  b1 == b[i + 1]  kR == k[i + 1]  cL == k[i]
+    <3>0. i \in 2..(N - 1) /\ i - 1 \in 1..M /\ w[i - 1] = u[i] - u[i - 1] /\ w[i - 1] >= w[i] /\ u[i - 1] \in Int
+          /\ k[i] \in Int /\ k[i] >= 0
+      BY <2>3, <1>2
+    <3>1. /\ um \in Int /\ u0 \in Int /\ u1 \in Int /\ b0 \in Int /\ b1 \in Int /\ kR \in Int /\ kR >= 0 /\ cL \in Int /\ cL >= 0
+          /\ D*u0 + cL*(u0 - um) + cL*(u0 - u1) = D*b0
+          /\ D*u1 + kR*(u1 - u0) + 0*(u1 - u1) = D*b1
+          /\ u1 - u0 <= u0 - um /\ b0 <= b1
+      BY <2>3, <1>3, <3>0 DEF Stencil
+    <3> HIDE DEF u0, u1, um, b0, b1, kR, cL
+    <3>2. u1 - u0 >= 0 BY ONLY <3>1, D \in Int, D > 0, DiffLast
+    <3>3. QED BY <3>2 DEF u0, u1
+  <2>4. CASE i >= 2 /\ i + 1 < N
+    <3> DEFINE u0 == u[i]  u1 == u[i + 1]  u2 == u[i + 2]  um == u[i - 1]  b0 == b[i]  b1 == b[i + 1]  kR == k[i + 1]  cL == k[i]
+    <3>0. /\ i \in 2..(N - 1) /\ i + 1 \in 2..(N - 1) /\ i - 1 \in 1..M /\ i + 1 \in 1..M
+          /\ w[i - 1] = u[i] - u[i - 1] /\ w[i - 1] >= w[i] /\ u[i - 1] \in Int
+          /\ w[i + 1] = u[i + 2] - u[i + 1] /\ w[i + 1] >= w[i] /\ u[i + 2] \in Int
+          /\ k[i] \in Int /\ k[i] >= 0
+      BY <2>4, <1>2
+    <3>1. /\ um \in Int /\ u0 \in Int /\ u1 \in Int /\ u2 \in Int /\ b0 \in Int /\ b1 \in Int /\ kR \in Int /\ kR >= 0 /\ cL \in Int /\ cL >= 0
+          /\ D*u0 + cL*(u0 - um) + cL*(u0 - u1) = D*b0
+          /\ D*u1 + kR*(u1 - u0) + kR*(u1 - u2) = D*b1
+          /\ u1 - u0 <= u2 - u1 /\ u1 - u0 <= u0 - um /\ b0 <= b1
+      BY <2>4, <1>3, <3>0 DEF Stencil
+    <3> HIDE DEF u0, u1, u2, um, b0, b1, kR, cL
+    <3>2. u1 - u0 >= 0 BY ONLY <3>1, D \in Int, D > 0, DiffInterior
+    <3>3. QED BY <3>2 DEF u0, u1
+  <2>5. QED BY <2>1, <2>2, <2>3, <2>4, <1>3
+<1>5. QED
+  <2>1. TAKE j \in 1..(N - 1)
+  <2>2. j \in 1..M /\ w[j] = u[j + 1] - u[j] /\ w[j] >= w[i] /\ u[j] \in Int /\ u[j + 1] \in Int BY <1>2
+  <2>3. QED BY <2>2, <1>3, <1>4
+
 ==================================================================================
